@@ -44,6 +44,11 @@ class While(Expr):
         options.enterLoop()
 
         condStart, condEnd = self.cond.__teal__(options)
+        if len(options.continueBlocksStack[-1]) != 0:
+            # Continue jumps to the condition: a condition that continues this loop would jump to itself
+            raise TealCompileError(
+                "Continue cannot be used in the condition of its own While loop", self
+            )
         doStart, doEnd = self.doBlock.__teal__(options)
         end = TealSimpleBlock([])
 
